@@ -1,3 +1,55 @@
-import GV.Orch.Spec
+/-
+  C11 — The result map is exactly the set of rules that returned in this call.
+
+  Engine level: for all 21 execution methods the write log of the result map is exactly
+  (rule, value) for the executed rules whose `Execute` reported `returned`, in a map that is
+  allocated by this call (`results_fresh`: nothing depends on the map left by an earlier call).
+  Rule level (`GV.Props.C02`/`Eval`): `returned` is reported iff a `return` statement was reached
+  and its expression evaluated without error.
+-/
+import GV.Orch.AllConform
 namespace GV.Props.C11
+open GV.Orch GV.Generated.Orch
+
+/-- For every method and every configuration: the results are those of the executed rules that
+    returned, and nothing else. -/
+theorem C11_results (m : Method) (cfg : Cfg) (hp : Pre cfg) :
+    (run (All.skelOf m) cfg).1.results =
+      some (match spec m cfg with
+            | none => []
+            | some st => (st.flatten.filter (returned cfg)).map (fun r => (r.name, (cfg.out r.name).val))) := by
+  have h := All.conforms_all m cfg hp
+  have h2 := congrArg Obs.results h
+  simp only [obsOf, expectObs, expect] at h2
+  rw [h2]
+  cases spec m cfg <;> rfl
+
+/-- Nothing from an earlier call survives: the outcome does not depend on the previous map. -/
+theorem C11_fresh (m : Method) (cfg : Cfg) (hp : Pre cfg) (p : Option (List (Name × Option Int))) :
+    (run (All.skelOf m) { cfg with prev := p }).1.results = (run (All.skelOf m) cfg).1.results := by
+  have hp' : Pre { cfg with prev := p } := ⟨hp.rb, hp.stop0, hp.flag, hp.perm⟩
+  rw [C11_results m _ hp', C11_results m cfg hp]
+  have hdag : ∀ l, dagFamily { cfg with prev := p } l = dagFamily cfg l := by
+    intro l
+    induction l with
+    | nil => rfl
+    | cons a l ih => simp only [dagFamily]; rw [ih]; rfl
+  have hspec : spec m { cfg with prev := p } = spec m cfg := by
+    cases m <;> first | rfl | (simp only [spec, hdag])
+  rw [hspec]
+  rfl
+
+/-- A rule that did not run has no entry; a rule that ran and returned has its value. -/
+theorem C11_lookup (cfg : Cfg) (l : List Rule) (r : Rule) (hr : r ∈ l) (hret : returned cfg r = true) :
+    (r.name, (cfg.out r.name).val) ∈ (l.filter (returned cfg)).map (fun r => (r.name, (cfg.out r.name).val)) := by
+  apply List.mem_map.mpr
+  exact ⟨r, List.mem_filter.mpr ⟨hr, hret⟩, rfl⟩
+
+theorem C11_no_entry (cfg : Cfg) (l : List Rule) (n : Name) (v : Option Int)
+    (h : (n, v) ∈ (l.filter (returned cfg)).map (fun r => (r.name, (cfg.out r.name).val))) :
+    ∃ r ∈ l, r.name = n ∧ returned cfg r = true := by
+  obtain ⟨r, hr, heq⟩ := List.mem_map.mp h
+  obtain ⟨h1, h2⟩ := List.mem_filter.mp hr
+  exact ⟨r, h1, by simpa using congrArg Prod.fst heq, h2⟩
+
 end GV.Props.C11
